@@ -491,7 +491,16 @@ func (a *API) WalkOp(name string, nReplies int) ([]OpPath, *Walker, error) {
 		if obj == nil && f.Origin() != nil {
 			obj = f.Origin().Object() // an instantiation of a generic helper
 		}
-		if pkgOf(f) == up && obj != nil && !obj.Exported() && a.Senders[f] == "" && (f.Origin() == nil || a.Senders[f.Origin()] == "") {
+		// a validator of package types (func (t TimeProfile) Validate() error): its verdict is the conditions it
+		// checks, which the contract states for the operation that asks it
+		if pkgOf(f) == a.P.SSAPkg("types") && f.Blocks != nil && len(f.Blocks) <= 60 {
+			if res := f.Signature.Results(); res.Len() == 1 && isErrorType(res.At(0).Type()) {
+				return true
+			}
+		}
+		// (an exported accessor of the client — BroadcastAddr(), a few lines without loops or sends — is a helper that
+		// happens to be public)
+		if pkgOf(f) == up && obj != nil && (!obj.Exported() || publicHelper(f, nil)) && a.Senders[f] == "" && (f.Origin() == nil || a.Senders[f.Origin()] == "") {
 			res := f.Signature.Results()
 			if res.Len() == 1 && isBoolType(res.At(0).Type()) {
 				return simplePredicate(f) // a condition written as a function; anything richer is an opaque predicate
@@ -629,6 +638,14 @@ func (a *API) WalkOp(name string, nReplies int) ([]OpPath, *Walker, error) {
 	for i, p := range fn.Params {
 		if i == 0 {
 			args[i] = &Term{Op: "param", Name: "u", Typ: p.Type()}
+			// an operation is invoked on the client its caller obtained from the constructor: a nil-receiver branch
+			// of an accessor it calls (`if u != nil && ..`) is not a path of the operation
+			if _, isPtr := p.Type().Underlying().(*types.Pointer); isPtr {
+				if w.AssumeBool == nil {
+					w.AssumeBool = map[string]bool{}
+				}
+				w.AssumeBool["isnil(u)"] = false
+			}
 		} else {
 			args[i] = &Term{Op: "param", Name: fmt.Sprintf("arg%d", i-1), Typ: p.Type()}
 		}
